@@ -589,3 +589,106 @@ def native_checks(rng, tier):
             loop.close()
         except Exception:
             pass
+
+
+# =============================================================================================
+# the buffered single-call usage (actions/llm/generation.py): buffer the first k non-empty lines, hand them to a waiter, then
+# set the pattern, disable buffering and stream the rest
+# =============================================================================================
+_native_checks_main = native_checks
+
+
+def _buffered_checks(rng, tier):
+    import asyncio
+    from nemoguardrails.streaming import StreamingHandler
+    PREFIX, SUFFIX = '  "', '"'
+    fn = "StreamingHandler[buffered single-call usage: enable_buffering / wait_top_k_nonempty_lines / set_pattern / disable_buffering]"
+    failing = []
+    n = 0
+    seen = set()
+
+    def chunkings(text):
+        k = len(text)
+        for mask in range(1 << (k - 1)):
+            out, start = [], 0
+            for i in range(1, k):
+                if (mask >> (i - 1)) & 1:
+                    out.append(text[start:i])
+                    start = i
+            out.append(text[start:])
+            yield out
+
+    async def collect(handler, sink):
+        async for piece in handler:
+            sink.append(piece)
+
+    async def run_once(tokens):
+        h = StreamingHandler()
+        received = []
+        consumer = asyncio.create_task(collect(h, received))
+        await h.enable_buffering()
+        waiter = asyncio.create_task(h.wait_top_k_nonempty_lines(k=2))
+        await asyncio.sleep(0)
+        header = None
+        for tok in tokens:
+            await h.push_chunk(tok)
+            if header is None:
+                await asyncio.sleep(0)
+                await asyncio.sleep(0)
+                if waiter.done():
+                    header = waiter.result()
+                    h.set_pattern(prefix=PREFIX, suffix=SUFFIX)
+                    await h.disable_buffering()
+        await h.on_llm_end(None, run_id=None)
+        await asyncio.wait_for(consumer, timeout=5)
+        completion = await asyncio.wait_for(h.wait(), timeout=5)
+        return header, "".join(received), completion
+
+    cases = [("u\nb", "A\nB\nC"), ("u x\nb", "Hi\n\nyo"), ("u\nb", "one line")]
+    if tier == "thorough":
+        cases += [("# c\nu\nb", "x\ny"), ("u\n\nb", "A\n")]
+    loop = asyncio.new_event_loop()
+    try:
+        for header_text, message in cases:
+            text = header_text + "\n" + PREFIX + message + SUFFIX
+            body, last = text[:-1], text[-1]          # the closing quote arrives as its own last token
+            all_tok = list(chunkings(body)) if len(body) <= 13 else None
+            if all_tok is None:
+                all_tok = []
+                for _ in range(600 if tier == "thorough" else 220):
+                    cuts = sorted(rng.sample(range(1, len(body)), rng.randint(0, min(8, len(body) - 1))))
+                    all_tok.append([body[a:b] for a, b in zip([0] + cuts, cuts + [len(body)])])
+                all_tok.append([body])
+                all_tok.append(list(body))
+            for tokens in all_tok:
+                tokens = tokens + [last]
+                n += 1
+                seen.add((header_text, message, tuple(tokens)))
+                try:
+                    header, streamed, completion = loop.run_until_complete(run_once(tokens))
+                    bad = None
+                    if streamed != message:
+                        bad = "delivered %r, expected %r" % (streamed, message)
+                    elif completion != message:
+                        bad = "completion %r, expected %r (delivered %r)" % (completion, message, streamed)
+                except Exception as ex:
+                    bad = "raised %s: %s" % (type(ex).__name__, str(ex)[:120])
+                if bad and len(failing) < 4:
+                    failing.append(dict(kind="post", function=fn, file=FILE if "FILE" in globals() else "nemoguardrails/streaming.py", property_id="C18",
+                                        clause="(B) buffered usage: after the first two non-empty lines were handed to the waiter, the delivered "
+                                               "text and `completion` are the rest of the LLM text with prefix and suffix removed - for every "
+                                               "tokenisation",
+                                        inputs="family=buffered text=%r tokens=%r" % (text, tokens), outcome=bad + " (signature=buffered)"))
+    finally:
+        loop.close()
+    yield dict(function=fn, evaluations=n, distinct=len(seen), failures=len(failing), failing=failing,
+               bound="%d LLM texts (two header lines + a quoted multi-line bot message), all tokenisations of texts up to 14 characters, else "
+                     "sampled ones; the closing quote always arrives as its own token; the waiter is resumed right after the token that "
+                     "completes the third non-empty line" % len(cases))
+
+
+def native_checks(rng, tier):
+    for rec in _native_checks_main(rng, tier):
+        yield rec
+    for rec in _buffered_checks(rng, tier):
+        yield rec
